@@ -4,10 +4,9 @@
   visits every child before giving up.
 
   Property theorems only.  Model: TmVerif/Sched (Types, Tree, Place, Ops).  Lemmas:
-  TmVerif/Sched/{AggGen, AggCap, AggInst, AggInv, AggOps, WalkLemmas, SearchComplete, CurOk, CurInv}.lean.
+  TmVerif/Sched/{AggGen, AggCap, AggInst, AggInv, AggOps, WalkLemmas, SearchComplete, CurOk, CurInv, Probe}.lean.
 -/
-import TmVerif.Sched.SearchComplete
-import TmVerif.Sched.CurInv
+import TmVerif.Sched.Probe
 
 namespace TmVerif.Sched
 
@@ -43,52 +42,103 @@ theorem C02_put_complete (c c' : Cell) (aid : Nat) (a : App) (placed : Bool)
     (ha : c.app? aid = some a)
     (sid : Nat) (s : Srv) (anc : List Bkt) (hs : c.srv? sid = some s) (hup : s.state = .up)
     (hanc : c.tree.path sid = some anc) (hfit : srvCheck (c.putCtx a) s anc = true)
-    (h : cellPut c aid = .ok (c', placed)) : placed = true := by
-  simp only [cellPut, bind_ok, orAbort_ok] at h
-  obtain ⟨a1, ha1, h⟩ := h
-  rw [ha] at ha1; cases ha1
-  have hleaf : sid ∈ c.tree.leaves := (hall.tree.leaves sid).mpr ⟨s, srv?_mem hs, srv?_id hs⟩
-  have hfound := search_complete (c.putCtx a) c.tree [] sid s anc hagg.cap hagg.lab hagg.tr hcur hall.tree.names
-    hleaf hanc hs hup (by simpa using hfit)
-  split at h
-  · rename_i hnone
-    exact absurd hnone hfound
-  · simp only [bind_ok] at h
-    obtain ⟨⟨c2, rc⟩, _, h⟩ := h
+    (h : cellPut c aid = .ok (c', placed)) : placed = true :=
+  put_complete hall hagg hcur ha hs hup hanc hfit h
+
+/-- **C02 (one partition queue).**  From the state in which `_find_placements` is called: a pending
+    instance `p` (not blacklisted, not over its cap, no identity group, never evicted) for which some
+    up server passes the `Server.put` checks is placed by the call, provided the instances ahead of it
+    in the queue are quiescent (none of them ends on a server it was not on before the call) and none
+    of them has the probe's placement shape (feasibility-tracker key).  The state at the probe's turn
+    then offers at least the room of the start state (`fits_mono`), the tracker holds no record of its
+    shape, and `Cell.put` is complete. -/
+theorem C02_queue {c0 c' : Cell} {p : Nat} {ap : App} {queue : List (Nat × Bool)} {ch ch' : List Nat}
+    (h0 : AffAll c0) (hagg : AggOk c0) (hcur : CurOk c0.tree) (hh : ProbeHyp c0 p ap)
+    (hnd : (queue.map (·.1)).Nodup) (hp : (p, false) ∈ queue)
+    (hnotwin : ∀ y, AheadOf p (queue.map (·.1)) y → ∀ ay, c0.app? y = some ay → c0.tkey ay ≠ c0.tkey ap)
+    (h : findPlacements c0 queue ch = .ok (c', ch'))
+    (hquiet : ∀ y, AheadOf p (queue.map (·.1)) y → ¬ MovedTo c0 c' y) :
+    ∃ a' sid', c'.app? p = some a' ∧ a'.server = some sid' :=
+  findPlacements_probe h0 hagg hcur hh hnd hp hnotwin h hquiet
+
+/-- **C02 (whole cycle, the probe's partition scheduled first).**  In a state satisfying the
+    invariants (every reachable state: `C02_aggregates`), a new pending instance for which some up
+    server of its partition has the required traits and lifetime, room in every dimension and affinity
+    head-room at every level is placed by the next `Cell.schedule`, provided the instances ahead of it in
+    its partition's queue are quiescent in that cycle and none of them shares its placement shape.
+    *Partial* with respect to the property's statement in three ways, each decided by the
+    correspondence run and the probe/oracle monitor instead: instances with an identity group; a
+    pending instance of the same shape ahead of the probe (soundness of the feasibility tracker's
+    demand comparison); partitions scheduled before the probe's. -/
+theorem C02_cycle_partial (c c' : Cell) (q : List (Nat × Bool)) (qb : List (List (Nat × Bool))) (ch : List Nat)
+    (p : Nat) (ap : App)
+    (h0 : AffAll c) (hagg : AggOk c) (hcur : CurOk c.tree) (hh : ProbeHyp c p ap)
+    (hnd : (q.map (·.1)).Nodup) (hp : (p, false) ∈ q)
+    (hdisj : ∀ q' ∈ qb, ∀ y ∈ q.map (·.1), y ∉ q'.map (·.1))
+    (hnotwin : ∀ y, AheadOf p (q.map (·.1)) y → ∀ ay, c.app? y = some ay → c.tkey ay ≠ c.tkey ap)
+    (h : schedule c (q :: qb) ch = .ok c')
+    (hquiet : ∀ cpre, prePasses c = .ok cpre → ∀ y, AheadOf p (q.map (·.1)) y → ¬ MovedTo cpre c' y) :
+    ∃ a' sid', c'.app? p = some a' ∧ a'.server = some sid' := by
+  simp only [schedule, bind_ok] at h
+  obtain ⟨c1, hpre, ⟨c2, rest⟩, hf, h⟩ := h
+  have hc2 : c2 = c' := by
     split at h
     · simp only [throw_bind, throw_ne_ok] at h
-    · simp only [pure_ok, Prod.mk.injEq] at h
-      exact h.2.symm
-
-/-- **C02 (placement step, partial).**  When the probe instance reaches the placement attempt of
-    `_find_placements` (it is not blacklisted, not over its cap, has its identity, and the feasibility
-    tracker did not rule it out) in a state where some up server fits it, it is placed.
-    *Partial*: that the tracker never rules out a fitting instance of a quiescent cell, and that the
-    state at the probe's turn offers at least the room of the quiescent state, are decided by the
-    correspondence run and the probe/oracle monitor, not by this theorem. -/
-theorem C02_tryPlace_partial (revq : List Nat) (st st' : PState) (aid : Nat) (a : App)
-    (restore : Option (Nat × Option Int))
-    (hall : AffAll st.cell) (hagg : AggOk st.cell) (hcur : CurOk st.cell.tree)
-    (ha : st.cell.app? aid = some a)
-    (sid : Nat) (s : Srv) (anc : List Bkt) (hs : st.cell.srv? sid = some s) (hup : s.state = .up)
-    (hanc : st.cell.tree.path sid = some anc) (hfit : srvCheck (st.cell.putCtx a) s anc = true)
-    (h : tryPlace revq st aid restore = .ok st') :
-    ∃ a' sid', st'.cell.app? aid = some a' ∧ a'.server = some sid' := by
-  simp only [tryPlace, bind_ok, orAbort_ok] at h
-  obtain ⟨a2, ha2, ⟨c3, placed⟩, hput, h⟩ := h
-  have hp : placed = true :=
-    C02_put_complete st.cell c3 aid a placed hall hagg hcur ha sid s anc hs hup hanc hfit hput
-  subst hp
-  obtain ⟨a', sid', hc3, hsv⟩ := cellPut_placed hput
-  simp only [↓reduceIte, pure_ok, bind_ok, orAbort_ok] at h
-  obtain ⟨c4, hc4, a4, ha4, h⟩ := h
-  subst hc4
-  rw [hc3] at ha4
-  simp only [Option.some.injEq] at ha4
-  rw [← ha4, hsv] at h
-  simp only [Option.isSome_some, ↓reduceIte, pure_ok] at h
-  rw [← h]
-  exact ⟨a', sid', hc3, hsv⟩
+    · simp only [pure_ok] at h; exact h
+  subst hc2
+  simp only [List.foldlM, bind_ok] at hf
+  obtain ⟨⟨cq, chq⟩, hfq, hfb⟩ := hf
+  have hcyb : Cycle qb cq c2 := partitions_cycle qb (cq, chq) (c2, rest) hfb
+  -- the pre-passes
+  have hpreL := prePasses_lreach h0.cap hpre
+  have hr1 : Reach c c1 := hpreL.toReach
+  have hstat1 := sameStatic_reach hr1
+  have hall1 := affAll_reach h0 hr1
+  have hagg1 := aggOk_reach h0 hagg hr1
+  have hcur1 := curOk_reach hcur hr1
+  have hclean1 : Clean c c1 := fun y b0 b hb0 hb => by
+    obtain ⟨b', hb', e⟩ := preOk_servers hpreL y b hb
+    rw [hb0] at hb'; cases hb'; exact e
+  have hsame1 : c1.app? p = some ap := by
+    rw [preOk_unplaced h0.cap hpreL hh.app hh.unplaced hh.noGroup]; exact hh.app
+  obtain ⟨S, s0, anc0, hs0, hup0, hanc0, hfit0⟩ := hh.fits
+  obtain ⟨s1, hs1, ests⟩ := srv?_stat_to hstat1 hs0
+  have hup1 : s1.state = .up := by
+    have : s1.state = s0.state := congrArg SrvStat.state ests
+    rw [this]; exact hup0
+  have hname : S ∈ c1.tree.names :=
+    leaves_sub_names _ _ ((hall1.tree.leaves S).mpr ⟨s1, srv?_mem hs1, srv?_id hs1⟩)
+  obtain ⟨anc1, hanc1⟩ := path_exists _ S hname
+  have hfit1 := fits_mono (y := p) h0 hr1 hclean1 hh.app hsame1 hs0 hs1 hanc0 hanc1 hfit0
+  have hh1 : ProbeHyp c1 p ap :=
+    ⟨hsame1, hh.unplaced, hh.notBl, hh.noRenew, hh.noGroup, hh.fresh, S, s1, anc1, hs1, hup1, hanc1, hfit1⟩
+  -- the probe's partition
+  have hpq : p ∈ q.map (·.1) := List.mem_map_of_mem (f := (·.1)) hp
+  have hstable : ∀ y ∈ q.map (·.1), ∀ b2, c2.app? y = some b2 → ∃ bq, cq.app? y = some bq ∧ b2.server = bq.server := by
+    intro y hy b2 hb2
+    obtain ⟨bq, hbq, e1, _, _⟩ := cycle_untouched hcyb (fun q' hq' => hdisj q' hq' y hy) b2 hb2
+    exact ⟨bq, hbq, e1⟩
+  obtain ⟨a', sid', ha', hsv'⟩ := findPlacements_probe hall1 hagg1 hcur1 hh1 hnd hp
+    (by
+      intro y hy ay hay
+      obtain ⟨b0, hb0, est⟩ := app?_stat_of hstat1 hay
+      rw [tkey_static hstat1 est, tkey_static (a := ap) (a0 := ap) hstat1 rfl]
+      exact hnotwin y hy b0 hb0)
+    hfq
+    (by
+      intro y hy hm
+      apply hquiet c1 hpre y hy
+      obtain ⟨b0, b, t, hb0, hb, hbt, hne⟩ := hm
+      obtain ⟨l1, l2, el, hy1, _⟩ := hy
+      have hyq : y ∈ q.map (·.1) := by rw [el]; exact List.mem_append_left _ hy1
+      obtain ⟨b2, hb2, _⟩ := app?_stat_to (sameStatic_reach hcyb.toReach) hb
+      obtain ⟨bq, hbq, e⟩ := hstable y hyq b2 hb2
+      rw [hb] at hbq; cases hbq
+      exact ⟨b0, b2, t, hb0, hb2, by rw [e]; exact hbt, hne⟩)
+  obtain ⟨a2, ha2, _⟩ := app?_stat_to (sameStatic_reach hcyb.toReach) ha'
+  obtain ⟨bq, hbq, e⟩ := hstable p hpq a2 ha2
+  rw [ha'] at hbq; cases hbq
+  exact ⟨a2, sid', ha2, by rw [e]; exact hsv'⟩
 
 /-! ### Non-vacuity: a rack whose first server is full and whose second one fits; the search reaches
     the second server although the cursor of the rack points past it. -/
